@@ -64,13 +64,21 @@ def c15(run):
         "period.* and judged by TLC against KCalendar; bucket classes compared globally over a window of years")
 
 
-def parse_family(run, prop, want, rule_text, extra_cases=None):
+def parse_family(run, prop, want, rule_text, extra_cases=None, kind=None):
     cases, r = run.mc("MC_Parse", {"KV_WANT": want})
+    if kind:
+        lines = [json.loads(l) for l in open(cases, encoding="utf-8") if l.strip()]
+        with open(cases, "w", encoding="utf-8") as f:
+            for c in lines:
+                c["kind"] = kind
+                f.write(json.dumps(c, ensure_ascii=False) + "\n")
     if extra_cases:
         with open(cases, "a", encoding="utf-8") as f:
             for c in extra_cases:
                 f.write(json.dumps(c, ensure_ascii=False) + "\n")
     obs = run.drive(cases)
+    if kind == "view":
+        run.postprocess(obs, vlib.decode_json_fields)
     flagged = run.judge("Trace_Parse", obs, env={"KV_RULES": prop}, chunk=6000)
     return vlib.finish(run, flagged, rule_text=rule_text)
 
@@ -104,3 +112,28 @@ def c06(run):
         "all token sequences up to the tier's length over a 24-token alphabet of klog fragments (invalid UTF-8 symbols, NUL, "
         "lone CR, huge numbers) plus every generated document and mutant: serial and parallel parse (2, 3, len+1 workers), "
         "for accepted input 14 read-only commands through the real CLI entry point, for rejected input both error renderings")
+
+
+@check("C08", "Trace_Parse")
+def c08(run):
+    return parse_family(run, "C08", "valid", kind="view", rule_text=
+        "every generated conforming document (all layouts: indentation styles, LF/CRLF, blank-line runs incl. whitespace-only "
+        "lines, leading/trailing blanks, with/without final newline): the blocks returned by the real parser are compared "
+        "line by line (text, ending, global line index) with the specification's block segmentation, and a reconcile that "
+        "changes nothing must return the identical text")
+
+
+@check("C09", "Trace_Parse")
+def c09(run):
+    return parse_family(run, "C09", "valid", kind="view", rule_text=
+        "every generated conforming document is printed with `klog print --no-style` through the real CLI; the output is "
+        "re-parsed (same records incl. notation), printed again (fixed point), checked for canonical layout and compared "
+        "with the specification's canonical serialisation KPrint")
+
+
+@check("C10", "Trace_Parse")
+def c10(run):
+    return parse_family(run, "C10", "invalid", kind="view", rule_text=
+        "every rule-violating mutant of the base documents (each fault kind at each line) and every generated "
+        "non-conforming document: per reported error line/text/column/length bounds, ascending order, first error on the "
+        "first non-conforming line (as computed by the recogniser KParse), and the terminal and JSON renderings of the same errors")
